@@ -137,6 +137,8 @@ func c08stress(c *Ctx) {
 		spyMu := &sync.Mutex{}
 		spyM := map[string]map[int]bool{}
 		var calls int64
+		blanks := make([]int64, nLog)
+		gotBlanks := make([]int64, nLog)
 		var wg sync.WaitGroup
 		start := make(chan struct{})
 		issued := make([][]string, nLog) // ids issued per logger, per goroutine merged later
@@ -163,6 +165,16 @@ func c08stress(c *Ctx) {
 						for j := 0; j < 150+gr.Intn(200); j++ {
 							args = append(args, fmt.Sprintf("x%03d", j), id)
 						}
+					}
+					if gr.P(4) { // a blank line: exactly one newline byte, formatted on the short path
+						if gr.Bool() {
+							l.Println()
+						} else {
+							l.Print("")
+						}
+						atomic.AddInt64(&blanks[li], 1)
+						atomic.AddInt64(&calls, 1)
+						continue
 					}
 					if gr.P(20) { // a call without arguments of its own: only the logger's attributes are printed
 						msg = "n-" + id
@@ -238,6 +250,10 @@ func c08stress(c *Ctx) {
 				continue
 			}
 			li := widToLogger[e.W]
+			if string(e.Data) == "\n" {
+				gotBlanks[li]++
+				continue
+			}
 			id, why := c08judge(lgs[li].f, e.Data, expKeys[li], multiline)
 			if why != "" {
 				bad++
@@ -256,6 +272,11 @@ func c08stress(c *Ctx) {
 		c.R.Add("goroutine_switches_in_arrival_order", int64(switches))
 		if bad == 0 {
 			for i := range lgs {
+				if gotBlanks[i] != blanks[i] {
+					c.R.Violation(idx, "loss-or-duplication", "C08/multiset/blank-lines", fmt.Sprintf("logger L%d: %d blank lines issued, %d delivered", i, blanks[i], gotBlanks[i]), desc)
+					bad++
+					break
+				}
 				want := map[string]int{}
 				for _, id := range issued[i] {
 					want[id]++
